@@ -67,6 +67,14 @@ def describedArgDoc : SchemaDoc :=
 /-- `type Query { """a⏎b""" f: Query }` -/
 def describedFieldDoc : SchemaDoc := docOf [mkDef .object "Query" [field "f" "Query" [97, 10, 98]]]
 
+/-- `describedArgDoc` as it is printed with `WithoutDescription` -/
+def describedArgDocPrinted : SchemaDoc :=
+  { docOf [mkDef .inputObject "In" [field "x" "In"]] with
+    directives := [{ desc := [], name := str "d",
+                     args := [{ desc := [], name := str "a", default := none, type := named "In", dirs := [], pos := p1 },
+                              { desc := [], name := str "b", default := none, type := named "In", dirs := [], pos := p1 }],
+                     locations := [str "FIELD"], repeatable := false, pos := p1 }] }
+
 /-- what is loaded back: the printed document, read as a user source -/
 def printed (cfg : Cfg) (s : Schema) : SchemaDoc := setBuiltIn false (normSchemaDoc cfg (docOfSchema cfg s))
 
